@@ -65,9 +65,18 @@ def wl_trees(ctx, rng, case_no):
     d = SP.depth(spec)
     for k in kinds:
         ctx.hist("kinds", k)
+    # half of the cases render ONE object at all widths in turn (a renderable is rendered again and again by Live
+    # displays and by containers that measure and then render): the bound must hold on every render, not only on the
+    # first one of a fresh object
+    reuse = rng.random() < 0.5
+    shared = SP.build(spec) if reuse else None
+    if reuse:
+        rng.shuffle(widths)
     for W in widths:
         console = consoles.layout_console(W, legacy=legacy, ascii_only=ascii_only)
-        obj = SP.build(spec)
+        obj = shared if reuse else SP.build(spec)
+        if reuse:
+            ctx.count("re_renders_of_one_object")
         ctx.count("mon.render")
         line_widths, lines = SP.render_lines_cells(console, obj)
         ctx.count("mon.line_width", len(line_widths))
@@ -78,7 +87,8 @@ def wl_trees(ctx, rng, case_no):
             feats = features(spec)
             mech = "line-wider-than-available:" + ("+".join(feats) if feats else "top=%s" % spec["k"])
             ctx.violation(mech, {"spec": spec, "width": W, "structural_min": m, "line": lines[i],
-                                 "line_cells": worst, "legacy_windows": legacy, "ascii_only": ascii_only})
+                                 "line_cells": worst, "legacy_windows": legacy, "ascii_only": ascii_only,
+                                 "same_object_rendered_before_at": [w for w in widths[:widths.index(W)]] if reuse else None})
         sig = (json.dumps(spec, sort_keys=True, ensure_ascii=False, default=str), W, legacy, ascii_only)
         ctx.case_done(sig, d >= 2 and (worst >= W or len(lines) > 3),
                       {"spec": spec, "width": W, "m": m, "max_line": worst, "lines": len(lines)})
